@@ -12,6 +12,8 @@ CLAIMED = {}
 for fn in sorted(os.listdir(os.path.join(VERIF, 'tools', 'checks'))):
     if re.fullmatch(r'C\d\d\.py', fn):  # Cxx_part.py modules are helpers of a Cxx.py
         mod = importlib.import_module(fn[:-3])
+        if getattr(mod, 'DISABLED', None):
+            continue
         CLAIMED[fn[:-3]] = mod.MANIFEST
 NOT_YET = {}
 props = [json.loads(l) for l in open(os.path.join(VERIF, 'properties.jsonl'))]
